@@ -2,7 +2,8 @@ import SockModel.Drive.Uri
 /-! Driver for C12 (text round-trip, canonical accessors, port fidelity): the shared URI driver in
 fidelity mode - correspondence with `Model/Uri.lean` + no numeric service > 65535 reaches
 `getaddrinfo`, `Port()` equals the numeric service, `Service()` is its decimal text, `to_string`
-parses back to an equal Address, all spellings of a literal endpoint agree. -/
+parses back to an equal Address, all spellings of a literal endpoint agree = `Uri.specStep .fidelity` of
+`Spec/Uri.lean` (the driver holds no property clause). -/
 namespace SockModel.Drive.C12
 open SockModel.Drive
 
